@@ -12,21 +12,27 @@ Decided structurally:
                        key = file name, value = read_to_string (both unmodified, error propagated); the only
                        tolerated error is NotFound on the directory listing; GenericPlatform forwards to it
   R5 store tolerance   `None` only for an I/O error of kind NotFound; every other error propagates
-  R6 no silent drop    no Result of an input read in the context-assembly functions is discarded
+  R6 no silent drop    no Result of an input read in the context-assembly functions (and the private helpers / closures
+                       they are split into, incl. Results handed on as closure / helper arguments) is discarded
+R4's insert obligations are stated on the Env::insert *effect* reached from read_platform_env (lib/effects) with key, value
+and guards in normal form (C06_helpers.resolve), so they do not depend on loop vs iterator adapters or helper extraction.
 Not decided: equality of parsed TOML values with the document (toml crate), file contents.
 """
-from .lib.discard import result_fates, verdict
+from .lib.discard import result_fates, local_fates, verdict
+from .lib.effects import Effects, guards_of
 from .lib.guards import conditions
 from .lib.paths import strip, _listed_from
 from .lib.tables import arm_defs, phi_local_of
 from .lib.value import vstr, walk
 from . import layer_env_common as L
+from . import C06_helpers as H
 
 RD = 'libcnb::runtime::libcnb_runtime_detect'
 RB = 'libcnb::runtime::libcnb_runtime_build'
 ASSEMBLY_RX = (r'^libcnb::runtime::(libcnb_runtime_detect|libcnb_runtime_build|context_target|read_buildpack_dir|read_buildpack_descriptor)(::\{closure#\d+\})*$',
                r'^libcnb::platform::read_platform_env(::\{closure#\d+\})*$',
                r'^<libcnb::generic::GenericPlatform as libcnb::platform::Platform>::from_path(::\{closure#\d+\})*$')
+INSERT = 'libcnb::env::Env::insert'
 TARGET = {'os': 'CNB_TARGET_OS', 'arch': 'CNB_TARGET_ARCH', 'arch_variant': 'CNB_TARGET_ARCH_VARIANT',
           'distro_name': 'CNB_TARGET_DISTRO_NAME', 'distro_version': 'CNB_TARGET_DISTRO_VERSION'}
 
@@ -164,35 +170,61 @@ def run(ctx, rep):
     rep.analysed(pe)
     pw = '%s:%d' % (pe.file, pe.line)
     root = lambda y: y[0] == 'param' and y[1] == pe.path and y[2] == 0
-    ins = [c for c in pe.calls if c.name == 'libcnb::env::Env::insert']
-    if len(ins) != 1:
-        rep.unproven('R4', 'insert', pw, '%d Env::insert sites' % len(ins))
+    # The obligation is stated on the *effect* "a variable is inserted into the platform Env" reached from read_platform_env
+    # (through private helpers, closures handed to iterator adapters / Option-Result combinators), with the inserted key /
+    # value brought into the terms of read_platform_env and to their normal form (C06_helpers.resolve: payloads of private
+    # helpers replaced by what each of their success alternatives returns, with that alternative's branch decisions).
+    E = Effects(prog, sl, vocab={INSERT: ('ENV_INSERT', 1)})
+    ins_effs = [e for e in E.expand(pe, 'may') if e.kind == 'ENV_INSERT']
+    ins = {}
+    for e in ins_effs:
+        ins.setdefault((e.call.fn.path, e.call.bb), []).append(e)
+    direct = [c for c in pe.calls if c.name == INSERT and (c.fn.path, c.bb) not in ins]
+    if len(ins) != 1 or direct:
+        rep.unproven('R4', 'insert', pw, '%d Env::insert sites' % (len(ins) + len(direct)))
     else:
-        c = ins[0]
-        kv, vv = strip(sl.operand(pe, c.args[1])), strip(sl.operand(pe, c.args[2]))
-        pathv = None
-        okk = kv[0] == 'call' and kv[1] in ('std::path::Path::file_name', 'std::fs::DirEntry::file_name')
-        if okk and kv[1] == 'std::path::Path::file_name':
-            pathv = strip(kv[2][0])
-            src = _listed_from(pathv[2][0]) if pathv[0] == 'call' and pathv[1] == 'std::fs::DirEntry::path' else None
-            okk = src is not None and L.comps(src, root) == ('env',)
-        elif okk:
-            # entry.file_name(): the name of the same directory entry whose path() is read
-            entry = kv[2][0]
-            src = _listed_from(entry)
-            okk = src is not None and L.comps(src, root) == ('env',)
-            pathv = ('call', 'std::fs::DirEntry::path', (entry,)) if okk else None
-            if okk:
-                # use the actual path value of that entry as it appears in the function (same call-site identity)
-                for c2 in pe.calls:
-                    if c2.name == 'std::fs::DirEntry::path' and strip(sl.operand(pe, c2.args[0])) == strip(entry):
-                        pathv = strip(sl._call_value(pe, c2, set(), 0))
+        c = ins_effs[0].call
+        cases = []      # (key value, value value, guards) for every way the insert can be reached
+        for e in ins_effs:
+            own = guards_of(E, e)
+            for tv, gs in H.resolve(E, ('tuple', (e.args[1], e.args[2]))):
+                if tv[0] == 'tuple' and len(tv[1]) == 2:
+                    cases.append((tv[1][0], tv[1][1], own + gs))
+                else:
+                    cases.append((('unknown', 'key'), ('unknown', 'value'), own + gs))
+        okk = okv = okg = bool(cases)
+        kv = vv = ('unknown', 'no feasible insert')
+        guard = []
+        for kraw, vraw, gs in cases:
+            kv, vv = strip(kraw), strip(vraw)
+            # the file that is read: read_to_string(P)
+            readp = strip(vv[2][0]) if vv[0] == 'call' and vv[1] == 'std::fs::read_to_string' and vv[2] else None
+            pathv = None
+            k1 = kv[0] == 'call' and kv[1] in ('std::path::Path::file_name', 'std::fs::DirEntry::file_name')
+            if k1 and kv[1] == 'std::path::Path::file_name':
+                pathv = strip(kv[2][0])
+                src = _listed_from(pathv[2][0]) if pathv[0] == 'call' and pathv[1] == 'std::fs::DirEntry::path' else None
+                k1 = src is not None and L.comps(src, root) == ('env',)
+            elif k1:
+                # entry.file_name(): the name of the same directory entry whose path() is read
+                entry = kv[2][0]
+                src = _listed_from(entry)
+                k1 = src is not None and L.comps(src, root) == ('env',)
+                if k1 and readp is not None and readp[0] == 'call' and readp[1] == 'std::fs::DirEntry::path' and strip(readp[2][0]) == strip(entry):
+                    pathv = readp
+                else:
+                    pathv = ('call', 'std::fs::DirEntry::path', (entry,)) if k1 else None
+            okk = okk and k1
+            okv = okv and readp is not None and pathv is not None and readp == pathv and propagated(vraw)
+            guard = [(val, oc) for cd, views, subj in gs if cd.kind == 'bool' for val, oc in views
+                     if val[0] == 'call' and val[1].startswith('std::path::Path::')]
+            okg = okg and any(val[1] == 'std::path::Path::is_file' and oc is True and pathv is not None and strip(val[2][0]) == pathv for val, oc in guard)
+            if not (okk and okv and okg):
+                break
         rep.check(okk, 'R4', 'key', c.where(), 'key = file name of an entry of <platform>/env', 'variable name is ' + vstr(kv)[:120])
-        okv = vv[0] == 'call' and vv[1] == 'std::fs::read_to_string' and pathv is not None and strip(vv[2][0]) == pathv and sl.operand(pe, c.args[2])[0] == 'unwrap'
         rep.check(okv, 'R4', 'value', c.where(), 'value = read_to_string(same entry)?, unmodified', 'variable value is ' + vstr(vv)[:140])
-        guard = [cd for cd in conditions(pe, c.bb, sl) if cd.kind == 'bool' and cd.value[0] == 'call' and cd.value[1].startswith('std::path::Path::')]
-        okg = any(cd.value[1] == 'std::path::Path::is_file' and cd.outcome is True and pathv is not None and strip(cd.value[2][0]) == pathv for cd in guard)
-        rep.check(okg, 'R4', 'guard', c.where(), 'guarded by Path::is_file(entry) (follows symlinks)', 'insert guard is %s' % [repr(g) for g in guard])
+        rep.check(okg, 'R4', 'guard', c.where(), 'guarded by Path::is_file(entry) (follows symlinks)',
+                  'insert guard is %s' % ['%s == %s' % (vstr(val)[:80], oc) for val, oc in guard])
     # NotFound tolerance on the listing
     errs = [d for d in pe.whole_defs(0) if d[0] == 'stmt' and d[3]['r'] == 'agg' and d[3].get('variant') == 'Err']
     oks = [d for d in pe.whole_defs(0) if d[0] == 'stmt' and d[3]['r'] == 'agg' and d[3].get('variant') == 'Ok']
@@ -260,6 +292,11 @@ def run(ctx, rep):
     fns = []
     for rx in ASSEMBLY_RX:
         fns.extend(prog.find(rx))
+    # private helpers (and their closures) that the assembly functions are split into read inputs on their behalf
+    have = {f.path for f in fns}
+    for path, g in sorted(prog.reach(fns).items()):
+        if path not in have and g.crate == 'libcnb' and g.vis != 'pub' and g.kind in ('Fn', 'AssocFn', 'Closure'):
+            fns.append(g)
     for f in fns:
         rep.analysed(f)
         per = {}
@@ -287,4 +324,21 @@ def run(ctx, rep):
                              {'function': f.path, 'callee': c.name, 'arg': tagv})
             else:
                 rep.unproven('R6', subj, c.where(), 'fate of the Result of %s unknown: %s' % (c.name, [repr(x) for x in fates]))
+        # a Result that reaches this closure / private helper as an argument (the element of `iter.map(read).try_fold(..)`,
+        # `x.and_then(|r| ..)`) is the Result of an input read of the caller: same obligation
+        if f.kind == 'Closure' or f.vis != 'pub':
+            for local in range(2 if f.kind == 'Closure' else 1, f.argc + 1):
+                if not f.locals[local]['ty'].startswith('std::result::Result<'):
+                    continue
+                fates = local_fates(prog, f, local, {}, set(), 0)
+                vd = verdict(fates)
+                subj = '%s/param:%s' % (f.path, f.local_name(local) or '_%d' % local)
+                where = '%s:%d' % (f.file, f.line)
+                if vd in ('ok', 'panics'):
+                    rep.holds('R6', subj, where, 'result propagated')
+                elif vd == 'discarded':
+                    rep.violated('R6', subj, where, 'the Result handed to %s is dropped (%s): an unreadable input is silently treated as absent'
+                                 % (f.path, '; '.join(x.detail or x.kind for x in fates if x.kind == 'discarded')), {'function': f.path})
+                else:
+                    rep.unproven('R6', subj, where, 'fate of the Result parameter unknown: %s' % [repr(x) for x in fates])
     rep.floor('R6', 'input_reads', n)
